@@ -36,6 +36,12 @@ type Obligation struct {
 	Inputs map[string]string
 }
 
+// backingInfo: the array location a slice value was taken from (x[lo:hi] of *[N]T).
+type backingInfo struct {
+	loc    *Loc
+	lo, hi *Term
+}
+
 type Exec struct {
 	w         *World
 	top       *ssa.Function
@@ -63,13 +69,14 @@ type Exec struct {
 	iterSites map[*ssa.Function]int
 	exitBound map[string]bool
 	iterSeen  map[int]bool
+	backing   map[string]*backingInfo
 	qctr      int
 }
 
 func NewExec(w *World, fn *ssa.Function, spec *FuncSpec) *Exec {
 	return &Exec{w: w, top: fn, spec: spec, names: map[string]int{}, locIDs: map[string]*Term{}, locBack: map[string]*Loc{},
 		cloBack: map[string]*Closure{}, maxPaths: 4096, inlined: map[string]bool{}, assumed: map[string]bool{}, havocked: map[string]bool{},
-		loops: map[*ssa.Function]*loopInfo{}, iterSites: map[*ssa.Function]int{}, exitBound: map[string]bool{}, iterSeen: map[int]bool{}}
+		loops: map[*ssa.Function]*loopInfo{}, iterSites: map[*ssa.Function]int{}, exitBound: map[string]bool{}, iterSeen: map[int]bool{}, backing: map[string]*backingInfo{}}
 }
 
 func fnKey(fn *ssa.Function) string {
@@ -138,7 +145,7 @@ func (x *Exec) Run() (obls []*Obligation, err error) {
 	x.ownerTags = specTags(x.spec)
 	x.safety = len(x.spec.Safety) > 0
 	x.loadAxioms()
-	s := &State{cellVal: map[*Cell]Value{}, heap: map[string]*Term{}, heapT: map[string]types.Type{}, ghostI: map[*ssa.BasicBlock]*Term{}}
+	s := &State{cellVal: map[*Cell]Value{}, heap: map[string]*Term{}, heapSort: map[string]string{}, ghostI: map[*ssa.BasicBlock]*Term{}}
 	s.assume(Ge(Var("alloc0", SInt), IntT(0)))
 	fr := x.newFrame(x.top, nil)
 	// parameters
@@ -342,7 +349,7 @@ func (x *Exec) notePointer(s *State, v Value) {
 	switch types.Unalias(v.T).Underlying().(type) {
 	case *types.Pointer, *types.Map:
 		if v.Term.K == KVar || v.Term.K == KApp && v.Term.Name != "+" {
-			s.assume(And(Le(IntT(0), v.Term), Le(v.Term, Add(Var("alloc0", SInt), IntT(int64(s.nalloc))))))
+			s.assume(And(Le(IntT(0), v.Term), Le(v.Term, s.watermark())))
 		}
 	}
 }
@@ -484,12 +491,12 @@ func (x *Exec) step(s *State, fr *Frame, in ssa.Instruction) bool {
 		}
 		other := x.fork(s)
 		ofr := other.top()
-		other.assume(Not(c))
+		x.learn(other, Not(c))
 		other.path = append(other.path, fmt.Sprintf("%s:!b%d", x.posOf(i.Cond.Pos()), tb.Index))
 		if x.jump(other, ofr, fb) {
 			x.work = append(x.work, other)
 		}
-		s.assume(c)
+		x.learn(s, c)
 		s.path = append(s.path, fmt.Sprintf("%s:b%d", x.posOf(i.Cond.Pos()), tb.Index))
 		return x.jump(s, fr, tb)
 	case *ssa.Return:
@@ -1032,7 +1039,10 @@ func (x *Exec) doSlice(s *State, fr *Frame, i *ssa.Slice) {
 		}
 		x.oblSafe(s, fr, "safe.slice", And(Le(IntT(0), lo), Le(lo, hi), Le(hi, IntT(arr.Len()))), i.Pos(), i)
 		av := x.load(s, fr, base, i)
-		fr.vals[i] = Value{T: i.Type(), Term: x.w.SlMk(x.w.SortOf(i.Type()), av.Term, lo, hi)}
+		st := x.w.SlMk(x.w.SortOf(i.Type()), av.Term, lo, hi)
+		// remember which array the slice was taken from: a callee contract may assign backing(s)
+		x.backing[st.Key()] = &backingInfo{loc: x.ptrLoc(s, base), lo: lo, hi: hi}
+		fr.vals[i] = Value{T: i.Type(), Term: st}
 	case *types.Slice:
 		ln := x.w.SlLen(base.Term)
 		if i.High != nil {
@@ -1357,7 +1367,7 @@ func (x *Exec) loadAxioms() {
 			if dup {
 				continue
 			}
-			st := &State{cellVal: map[*Cell]Value{}, heap: map[string]*Term{}, heapT: map[string]types.Type{}, ghostI: map[*ssa.BasicBlock]*Term{}}
+			st := &State{cellVal: map[*Cell]Value{}, heap: map[string]*Term{}, heapSort: map[string]string{}, ghostI: map[*ssa.BasicBlock]*Term{}}
 			t := x.evalBool(&EvalCtx{x: x, st: st, old: st, env: map[string]Value{}, sf: sf}, ax.Expr)
 			consts := map[string]string{}
 			funs := map[string]bool{}
